@@ -31,11 +31,17 @@ def toyPP (wf : Bool) : Params K Nat :=
     hs := toyHashes
     checkWf := wf }
 
-theorem toy_encodes (wf : Bool) (coeffs : List K) : Encodes (toyPP wf) coeffs toyE 4 where
+theorem toy_encodes (wf : Bool) (coeffs : List K) (hfit : coeffs.length ≤ 4) :
+    Encodes (toyPP wf) coeffs toyE 4 where
   lin := rep_isLinear 2
   enc _ _ := rfl
   rows := by simp [coeffMat_n, toyPP]
   two := by omega
+  fits := by
+    unfold fitsDims coeffsOrZero toyPP
+    by_cases he : coeffs.isEmpty
+    · simp [he]
+    · simp [he]; omega
 
 /-- run `commit`, `open`, `check` of the model on one polynomial -/
 def toyRun (wf : Bool) (point : Point K) (coeffs : List K) (o : Oracle K) (value : K) :
